@@ -68,7 +68,7 @@ package samlidp
 //@ contract (*Server).sendLoginForm
 //@ requires[cfg] r: req != nil && req.IDP != nil
 //@ -- C14: the login form is rendered by html/template with toast, URL, request and relay state as data
-//@ assert@call[C14] (*html/template.Template).Execute #each (t *template.Template, out io.Writer, data interface{}) html_template:
+//@ assert@call[C14] (*html/template.Template).Execute #0 (t *template.Template, out io.Writer, data interface{}) html_template:
 //@    t != nil && (t == s.LoginFormTemplate || (s.LoginFormTemplate == nil && t == defaultLoginFormTemplate))
 //@ -- ... and every caller-controlled string - the toast included - reaches the template as a plain string, the type the
 //@ -- contextual escaper treats as text (template.HTML, template.URL, template.JS mean "already safe, do not escape")
@@ -77,7 +77,7 @@ package samlidp
 //@ go func isLoginFormData(d interface{}) bool { _, ok := loginFormData(d); return ok }
 //@ go func loginFormToast(d interface{}) string { x, _ := loginFormData(d); return x.Toast }
 //@ go func loginFormRelay(d interface{}) string { x, _ := loginFormData(d); return x.RelayState }
-//@ assert@call[C14] (*html/template.Template).Execute #each (t *template.Template, out io.Writer, data interface{}) plain_strings_as_data:
+//@ assert@call[C14] (*html/template.Template).Execute #0 (t *template.Template, out io.Writer, data interface{}) plain_strings_as_data:
 //@    isLoginFormData(data) && loginFormToast(data) == toast && loginFormRelay(data) == req.RelayState
 
 //@ -- stored password hashes are never disclosed: the user record is encoded only after the hash was cleared
@@ -127,7 +127,7 @@ package samlidp
 //@ ghost func allocatedHereBytes(b []byte) bool
 //@ assert@return[C19,C20] #each (out []byte) own_memory: allocatedHereBytes(out)
 //@ ensures[C19] length: len(result) == n
-//@ assert@call[C19] io.ReadFull #each (r io.Reader, buf []byte) uses rv []byte fills_all_from_configured_source:
+//@ assert@call[C19] io.ReadFull #0 (r io.Reader, buf []byte) uses rv []byte fills_all_from_configured_source:
 //@    r == saml.RandReader && sameBytes(buf, rv) && len(buf) == n
 
 //@ contract getSPMetadata
